@@ -811,3 +811,36 @@ _C16D = [{'qualname': 'format_exception_only', 'lean_name': 'format_exception_on
           'tie_theorem': 'C16.src_feo_type_str_eq_model', 'module': 'boltons.tbutils', 'kind': 'function',
           'translator': 'py2lean_c16', 'gen_file': 'tbutils_c16'}]
 _C16.extend(_C16D)
+# --- round 3e: C06, the quoting functions of boltons.urlutils (harness/py2lean_c06.py: spec key `translator`;
+# notes/SRCTIE.md section "Round 3e: C06").  A str is the list of its code points, a bytes the list of its bytes (`List Nat`:
+# the conventions of C06/Model.lean).  `c06.maps` / `c06.sets` / `c06.hexmaps`: module-level lookup tables -> their
+# regenerated Lean tables in Generated/C06_UrlTables.lean (written by the C06 regen hook from the module under test);
+# `c06.covers`: map -> the sets whose members are all keys of it (checked on the module under test on every run; kernel-
+# checked on the regenerated tables by C06.src_delims_in_maps).  `unicodedata.normalize('NFC', .)` is the parameter `nfc`.
+_C06_MAPS = {'_PATH_PART_QUOTE_MAP': 'pathMap', '_QUERY_PART_QUOTE_MAP': 'queryMap',
+             '_FRAGMENT_QUOTE_MAP': 'fragmentMap', '_USERINFO_PART_QUOTE_MAP': 'userinfoMap'}
+_C06_SETS = {'_PATH_DELIMS': 'pathDelims', '_QUERY_DELIMS': 'queryDelims', '_FRAGMENT_DELIMS': 'fragmentDelims',
+             '_USERINFO_DELIMS': 'userinfoDelims'}
+_C06_CFG = {'maps': _C06_MAPS, 'sets': _C06_SETS, 'hexmaps': {'_HEX_CHAR_MAP': 'hexMap'},
+            'regex_split': {'_ASCII_RE': ('([\x00-\x7f]+)', 'asciiSplit')},
+            'covers': {m: sorted(_C06_SETS) for m in _C06_MAPS}}
+_C06 = [
+    {'module': 'boltons.urlutils', 'qualname': 'quote_%s_part' % _c, 'lean_name': 'quote_%s_part' % _c,
+     'params': {'text': 'Str', 'full_quote': 'Bool'}, 'kind': 'function', 'result': 'Str',
+     'tie_theorem': 'C06.src_quote_%s_part_eq_model' % _c, 'translator': 'py2lean_c06', 'gen_file': 'urlutils_quote',
+     'c06': _C06_CFG}
+    for _c in ('path', 'query', 'fragment', 'userinfo')
+]
+# `unquote_to_bytes(string)` for a str argument (the only kind `unquote` passes); the result is a bytes
+_C06.append({'module': 'boltons.urlutils', 'qualname': 'unquote_to_bytes', 'lean_name': 'unquote_to_bytes',
+             'params': {'string': 'Str'}, 'kind': 'function', 'result': 'Bytes',
+             'tie_theorem': 'C06.src_unquote_to_bytes_eq_model', 'translator': 'py2lean_c06',
+             'gen_file': 'urlutils_quote', 'c06': _C06_CFG})
+# `unquote(string)` called with the defaults of `encoding` / `errors` (`consts`: parameters fixed to their default, which the
+# translator checks in the signature); `_ASCII_RE.split` is the declared operation `PyRtC06.asciiSplit` (`regex_split`: the
+# regex must be compiled from exactly that pattern); `.decode('utf-8', 'replace')` is `PyRtC06.decodeUtf8Replace`.
+_C06.append({'module': 'boltons.urlutils', 'qualname': 'unquote', 'lean_name': 'unquote',
+             'params': {'string': 'Str'}, 'consts': {'encoding': 'utf-8', 'errors': 'replace'}, 'kind': 'function',
+             'result': 'Str', 'tie_theorem': 'C06.src_unquote_eq_model', 'translator': 'py2lean_c06',
+             'gen_file': 'urlutils_quote', 'c06': _C06_CFG})
+SPECS['C06'] = _C06
